@@ -18,7 +18,7 @@ manifest = {
         "guard": "--cfg dropshot_verif",
         "enable": "harness/.cargo/config.toml sets rustflags = [\"--cfg\", \"dropshot_verif\"]; the harness crate depends on /repo/dropshot by path, so every check rebuilds /repo's working tree with the hooks on",
         "baseline_off_cmd": "cd /repo && (cargo nextest run --workspace --no-fail-fast --test-threads 8 --offline || cargo test --workspace --no-fail-fast --offline)",
-        "source_commits": ["addc92a", "599edcf"],
+        "source_commits": ["addc92a", "599edcf", "641899e"],
         "add_only": True,
     },
     "engines": [
